@@ -32,7 +32,8 @@ the class in every admissible presentation Periodic!PresOf names: base, none (re
 similarity x -> k x Q with a seeded Haar-random orthogonal Q, proper or improper, and k in [0.3, 3.3]:
 real-valued, generally oriented data), shift (centre 1000 / -777 / 513 cells away, every point moved by
 its own lattice translation - 41 i / -29 i cells when wrapped, one cell when not), basis (sheared,
-sign-changed basis of the same lattice), split (grid[K] for two complementary selections in all index
+sign-changed basis of the same lattice), replica (7 lattice-translated copies of every point: 7..21
+points, coinciding when wrapped), split (grid[K] for two complementary selections in all index
 forms, union of the two local grids), session (another query answered first by the same object; the
 query repeated; caller's arrays, earlier results and grid.points must not change), int / intvecs / f32 /
 argforms (integer arrays, float32 arrays, list / tuple / Python-scalar / 0-d centres, Python-int /
@@ -42,7 +43,7 @@ configurations (shifted points, other basis, selections, earlier query) are comp
 sub-grid indices back) and hands the result to the same judge.  All presentations of a case that give
 the same multiset are ONE observation for TLC, so a correct library costs no extra judging.  The laws
 behind the maps (SimLaw for the 2/8/48 signed permutations, ScaleLaw k = 2, ShiftLaw, BasisLaw,
-SplitLaw, SessionLaw, QueryKeepsGrid) are invariants checked by TLC for the definition AND the
+ReplicaLaw, SplitLaw, SessionLaw, QueryKeepsGrid) are invariants checked by TLC for the definition AND the
 algorithm on every LawEvery-th observed case (thorough: and every LawEveryMC-th enumerated one).
 'sim' and 'f32' are admissible only when no image can lie on the sphere (2 r^2 odd, or inf): every image
 is then at least |r^2 - d^2| >= 1/2 (integer units) away from the sphere, rounding of the mapped data
@@ -75,7 +76,7 @@ PROP = "C11"
 FAMS = ("L1", "L2", "L3")
 INVARIANTS = ("RecipIdentity RecipInSpan WrapInCell WrapIsTranslation NoWrapNoMove Complete Sound "
               "ExactlyOnce AlgEqualsDecl NoLatticeIsPlainGrid RadiusZero ObsConforms Flags "
-              "SimLaw ScaleLaw ShiftLaw BasisLaw SplitLaw SessionLaw QueryKeepsGrid").split()
+              "SimLaw ScaleLaw ShiftLaw BasisLaw ReplicaLaw SplitLaw SessionLaw QueryKeepsGrid").split()
 CFG = "SPECIFICATION Spec\n" + "".join(f"INVARIANT {i}\n" for i in INVARIANTS)
 ATOL = 1e-9
 
@@ -139,6 +140,8 @@ CaseJson(f, p) ==
      shift |-> IF Len(cf.vecs) = 0 THEN [pts |-> <<>>, c |-> <<>>, T |-> <<>>]
                ELSE [pts |-> ShiftCfg(cf).pts, c |-> ShiftCfg(cf).c, T |-> ShiftT(cf)],
      basis |-> BasisVecs(cf.vecs),
+     replica |-> IF Len(cf.vecs) = 0 THEN [pts |-> <<>>, w |-> <<>>, m |-> ReplicaM]
+                 ELSE [pts |-> ReplicaCfg(cf).pts, w |-> ReplicaCfg(cf).w, m |-> ReplicaM],
      split |-> SplitOf(cf),
      pre |-> PreQuery(f, cf, p[2])]
 Emit(f) == LET ok == SelectSeq(Want[f], LAMBDA p : ValidCase(f, p[1], p[2]))
@@ -194,7 +197,7 @@ def emit_cases(wd, par, rng, counts):
 # ---------------------------------------------------------------------------------------------
 # driving the implementation
 
-PRES = ("base", "none", "shift", "basis", "intvecs", "sim", "f32", "split", "session", "int", "argforms")
+PRES = ("base", "none", "shift", "basis", "replica", "intvecs", "sim", "f32", "split", "session", "int", "argforms")
 SIM_TOL = 1e-6   # integer units; see module docstring (presentations)
 
 
@@ -243,6 +246,9 @@ def _inputs(case, pres, seed):
         back = lambda X: X - T
     elif pres == "basis":
         A = np.array(case["basis"], dtype=float).reshape(nv, dim)
+    elif pres == "replica":
+        P = np.array(case["replica"]["pts"], dtype=float).reshape(-1, dim)
+        W = np.array(case["replica"]["w"], dtype=float)
     elif pres == "sim":
         k, Q = _similarity(case, seed)
         P, A, C = k * (P @ Q), k * (A @ Q), k * (C @ Q)
@@ -420,6 +426,15 @@ def observe(case, pres="base", seed=0):
         return {"st": type(e).__name__, "e": []}, attr
     try:
         st, ent = _entries(lg, g, c, dim, back, tol)
+        if pres == "replica" and st == "ok":
+            # inverse of Periodic!ReplicaSet: defined when every entry occurs once per copy; otherwise the
+            # observation is handed over as it is (indices >= n are then "not in the specification")
+            n, m = len(case["pts"]), int(case["replica"]["m"])
+            red = {}
+            for i, x, w_ in ent:
+                red.setdefault(json.dumps([i % n, x, w_]), []).append(i // n)
+            if all(sorted(q) == list(range(m)) for q in red.values()):
+                ent = [json.loads(k_) for k_ in red]
         return {"st": st, "e": ent}, attr
     except Exception as e:
         return {"st": "result:" + type(e).__name__, "e": []}, attr
@@ -529,13 +544,16 @@ def run_observations(cases, tier, seed=0):
 
 # ---------------------------------------------------------------------------------------------
 
+_LAST_EMIT = [None]
+
+
 def run(tier: str) -> int:
     rep = Report(PROP, tier, "model_checking")
     _execute(rep, tier)
     return rep.finish()
 
 
-def _execute(rep, tier, variant="code", mode="both", tag=None, sample=None):
+def _execute(rep, tier, variant="code", mode="both", tag=None, sample=None, emitted=None):
     rng = random.Random(rep.seed)
     par = dict(PARAMS[tier])
     if sample:
@@ -545,7 +563,10 @@ def _execute(rep, tier, variant="code", mode="both", tag=None, sample=None):
 
     # ---- 1. cases from the specification ------------------------------------------------------
     write_gen(wd, par, mode="obs")
-    cases, r_emit, ncells = emit_cases(wd, par, rng, par["sample"])
+    if emitted is None:
+        emitted = emit_cases(wd, par, rng, par["sample"])
+    _LAST_EMIT[0] = emitted
+    cases, r_emit, ncells = emitted
     rep.tlc(r_emit, "Emit_periodic")
     bykey = {(c["fam"], c["cell"], c["inner"]): c for f in FAMS for c in cases[f]}
 
@@ -688,7 +709,7 @@ MUTANTS = [
     ("range_excludes_max", "get_localgrid", "range(imin, imax + 1)", "range(imin, imax)", "off by one: last image dropped"),
     ("spacing_is_vector_length", "__init__", "spacings = 1 / np.linalg.norm(self._recivecs, axis=1)",
      "spacings = np.linalg.norm(realvecs, axis=1)", "plane spacing replaced by |a_j| (wrong on skewed cells only)"),
-    ("fmax_in_lower_bound", "get_localgrid", "np.ceil(self._frac_intvls[:, 0]", "np.ceil(self._frac_intvls[:, 1]",
+    ("fmax_in_lower_bound", "get_localgrid", "self._frac_intvls[:, 0] - frac_center - radius", "self._frac_intvls[:, 1] - frac_center - radius",
      "copy/paste slip: lower bound from the maximal fractional coordinate"),
     ("stale_frac_after_wrap", "__init__", "frac_points += frac_shift", "pass",
      "points wrapped, fractional interval taken before wrapping"),
@@ -735,10 +756,11 @@ SPEC_VARIANTS = [("veclen", "algorithm with spacing = |a_j|"), ("plusdelta", "al
 
 def selftest(tier: str = "quick") -> int:
     from grid.periodicgrid import PeriodicGrid
-    small = {"L1": 500, "L2": 500, "L3": 400}
+    small = {"L1": 400, "L2": 400, "L3": 300}
     results = []
     base = _Quiet(PROP, "quick", "model_checking")
     _execute(base, "quick", mode="obs", tag="selftest", sample=small)
+    em = _LAST_EMIT[0]      # the same TLC-decoded cases for every mutant
     if base.finish():
         print("selftest: unmutated library is reported - fix the check first", base.finish()[:2])
         return 2
@@ -746,7 +768,7 @@ def selftest(tier: str = "quick") -> int:
         orig = _mutate(PeriodicGrid, meth, old, new)
         try:
             rep = _Quiet(PROP, "quick", "model_checking")
-            _execute(rep, "quick", mode="obs", tag="selftest", sample=small)
+            _execute(rep, "quick", mode="obs", tag="selftest", sample=small, emitted=em)
             v = rep.finish()
         finally:
             setattr(PeriodicGrid, meth, orig)
@@ -755,7 +777,7 @@ def selftest(tier: str = "quick") -> int:
         print(f"selftest mutant {name}: {'KILLED' if v else 'survived'} ({len(v)} violations; presentations {by}) {v[0]['key'][:110] if v else ''}")
     for var, what in SPEC_VARIANTS:
         rep = _Quiet(PROP, "quick", "model_checking")
-        _execute(rep, "quick", variant=var, mode="obs", tag="selftest", sample=small)
+        _execute(rep, "quick", variant=var, mode="obs", tag="selftest", sample=small, emitted=em)
         v = [x for x in rep.finish() if x["key"].startswith("model:")]
         results.append(("spec:" + var, len(v), v[0]["key"] if v else "", what))
         print(f"selftest specification variant {var}: {'REFUTED by TLC' if v else 'not refuted'} {v[0]['key'][:160] if v else ''}")
